@@ -457,7 +457,11 @@ func replay(raw json.RawMessage) (vt.Result, *vt.Fail) {
 }
 
 func TestMain(m *testing.M) {
-	vt.Main(m, "C10", vt.NewPlainLeg("crash", 16, crashLeg, replay))
+	vt.ReplayRepeat["sample"] = 50
+	vt.Main(m, "C10",
+		vt.NewPlainLeg("crash", 16, crashLeg, replay),
+		vt.NewLeg("sample", 150, 800, 4, genSample, runSample),
+	)
 }
 
 func TestLegs(t *testing.T)   { vt.TestLegs(t) }
